@@ -187,6 +187,16 @@ func acceptFormula(p *Prog, fn *ssa.Function) *Formula {
 			if S := fa.errorSummary(g, hc, o, 0); S != nil {
 				disj = append(disj, fAnd(F, S))
 			}
+			continue
+		}
+		// `_, err := parse(x); return err`: accepts when that call's error is nil
+		if isErrorType(ev.Type()) {
+			switch ev.(type) {
+			case *ssa.Call, *ssa.Extract:
+				if at := cmpAtom("==", o.Of(ev), o.Of(ssa.NewConst(nil, ev.Type()))); at != nil {
+					disj = append(disj, fAnd(F, at))
+				}
+			}
 		}
 	}
 	if isBool {
@@ -295,6 +305,17 @@ func summariseLengthRegexValidator(p *Prog, fn *ssa.Function, idx int) (LangSpec
 		if pat, subj, isRe := regexAtom(t); isRe && isParam(subj) && !neg {
 			pats = append(pats, pat)
 			continue
+		}
+		// firstInvalidByte(param) < 0: every byte of the parameter is in the scanner's class
+		if t.Op == "lt" && len(t.Args) == 2 && t.Args[1].Op == "const" && t.Args[1].Name == "0" && t.Args[0].Op == "call" && len(t.Args[0].Args) == 1 && isParam(t.Args[0].Args[0]) && !neg {
+			if g := staticCalleeOfTerm(p, t.Args[0]); g != nil {
+				if set, isScan := byteScanAllowed(g); isScan {
+					if pat, okP := byteClassPattern(set); okP {
+						pats = append(pats, pat)
+						continue
+					}
+				}
+			}
 		}
 		var c int64
 		switch {
